@@ -353,12 +353,14 @@ Proof.
 Qed.
 
 Lemma moves_right_port ps L ps' : moves ps L ps' ->
-  forall i j m, In (i, j, m) L -> exists p, nth_error ps j = Some p /\ p_name p = m_dst m.
+  forall i j m, In (i, j, m) L ->
+    (i < length ps)%nat /\ exists p, nth_error ps j = Some p /\ p_name p = m_dst m.
 Proof.
   induction 1 as [ps|ps L ps1 i0 j0 m0 ps2 HL IH Hm]; intros i j m Hin; [destruct Hin|].
   apply in_app_iff in Hin. destruct Hin as [Hin|[Heq|[]]]; [eauto|]. injection Heq as -> -> ->.
-  destruct Hm as (src & dst & dst' & ns1 & src1 & v & src2 & ns2 & u & _ & _ & Ef & _).
-  destruct (moves_law _ _ _ HL) as (_ & Hnames & _).
+  destruct Hm as (src & dst & dst' & ns1 & src1 & v & src2 & ns2 & u & Es & _ & Ef & _).
+  destruct (moves_law _ _ _ HL) as (Hlen & Hnames & _).
+  split; [rewrite <- Hlen; eapply nth_error_lt; eauto|].
   unfold find_port in Ef. rewrite (find_port_from_names 0 _ ps1 ps Hnames) in Ef.
   destruct (find_port_from_spec _ _ _ _ Ef) as (_ & p & Hp & Hn). rewrite Nat.sub_0_r in Hp. eauto.
 Qed.
@@ -398,7 +400,8 @@ Qed.
 (** one action *)
 Lemma step_law c a c' : snd (step c a) = Some c' ->
   exists L, deliv1 c a = dl_of L /\
-    (forall i j m, In (i, j, m) L -> exists p, nth_error (c_ports c) j = Some p /\ p_name p = m_dst m) /\
+    (forall i j m, In (i, j, m) L ->
+       (i < length (c_ports c))%nat /\ exists p, nth_error (c_ports c) j = Some p /\ p_name p = m_dst m) /\
     forall k p, nth_error (c_ports c) k = Some p -> exists p', nth_error (c_ports c') k = Some p' /\
       p_name p' = p_name p /\
       content (p_out p) ++ sent_k k c a = map Some (from_k k L) ++ content (p_out p') /\
@@ -451,13 +454,35 @@ Proof.
   destruct (tick c); [discriminate|reflexivity].
 Qed.
 
+Lemma step_length c a c1 : snd (step c a) = Some c1 -> length (c_ports c1) = length (c_ports c).
+Proof.
+  intro Es. destruct a as [i m|i| |]; cbn [step] in Es.
+  - destruct (nth_error (c_ports c) i) as [p|]; [|discriminate].
+    destruct (can_send p); [destruct (send (Some m) p); try discriminate|];
+      injection Es as <-; cbn [c_ports]; rewrite ?set_nth_length; reflexivity.
+  - destruct (nth_error (c_ports c) i) as [p|]; [|discriminate].
+    destruct (retrieve_incoming p); try discriminate.
+    injection Es as <-; cbn [c_ports]; rewrite ?set_nth_length; reflexivity.
+  - destruct (tick c) as [pr c2 cb dl|] eqn:Et; [|discriminate]. injection Es as <-.
+    destruct (tick_progress _ _ _ _ _ Et) as (_ & _ & Hl). exact Hl.
+  - injection Es as <-. reflexivity.
+Qed.
+
+Lemma final_length h : forall c, length (c_ports (final c h)) = length (c_ports c).
+Proof.
+  induction h as [|a r IH]; intro c; cbn [final]; [reflexivity|].
+  destruct (snd (step c a)) as [c1|] eqn:Es; [|reflexivity].
+  rewrite IH. exact (step_length _ _ _ Es).
+Qed.
+
 (** all actions of a history: the delivery log can be labelled with source ports so that,
     for every port k, (stored + sent by k's owner) = (moved away from k ++ still stored)
     on the outgoing side and (stored + moved to k) = (retrieved by k's owner ++ still
     stored) on the incoming side — as ordered lists of unmodified messages. *)
 Lemma history_law h : forall c,
   exists L, deliv_log c h = dl_of L /\
-    (forall i j m, In (i, j, m) L -> exists p, nth_error (c_ports c) j = Some p /\ p_name p = m_dst m) /\
+    (forall i j m, In (i, j, m) L ->
+       (i < length (c_ports c))%nat /\ exists p, nth_error (c_ports c) j = Some p /\ p_name p = m_dst m) /\
     forall k p, nth_error (c_ports c) k = Some p -> exists p', nth_error (c_ports (final c h)) k = Some p' /\
       p_name p' = p_name p /\
       content (p_out p) ++ log (sent_k k) c h = map Some (from_k k L) ++ content (p_out p') /\
@@ -471,24 +496,13 @@ Proof.
       exists (L1 ++ L2). split; [rewrite dl_of_app, Hd1; unfold deliv_log in Hd2; rewrite Hd2; reflexivity|].
       split.
       { intros i j m Hin. apply in_app_iff in Hin. destruct Hin as [Hin|Hin]; [eauto|].
-        destruct (Hr2 i j m Hin) as (p1 & Hp1 & Hn1).
-        (* names are preserved by a step: find the same port in c *)
+        destruct (Hr2 i j m Hin) as (Hlt & p1 & Hp1 & Hn1).
+        pose proof (step_length _ _ _ Es) as Hlen.
+        split; [lia|].
         destruct (nth_error (c_ports c) j) as [p0|] eqn:E0.
         - destruct (Hl1 j p0 E0) as (p1' & Hp1' & Hn & _). rewrite Hp1 in Hp1'. injection Hp1' as <-.
           exists p0. split; [reflexivity|congruence].
-        - exfalso. (* the port list does not grow *)
-          assert (Hlen : length (c_ports c1) = length (c_ports c)).
-          { clear - Es. destruct a as [i m|i| |]; cbn [step] in Es.
-            - destruct (nth_error (c_ports c) i) as [p|]; [|discriminate].
-              destruct (can_send p); [destruct (send (Some m) p); try discriminate|];
-                injection Es as <-; cbn [c_ports]; rewrite ?set_nth_length; reflexivity.
-            - destruct (nth_error (c_ports c) i) as [p|]; [|discriminate].
-              destruct (retrieve_incoming p); try discriminate.
-              injection Es as <-; cbn [c_ports]; rewrite ?set_nth_length; reflexivity.
-            - destruct (tick c) as [pr c2 cb dl|] eqn:Et; [|discriminate]. injection Es as <-.
-              destruct (tick_progress _ _ _ _ _ Et) as (_ & _ & Hl). exact Hl.
-            - injection Es as <-. reflexivity. }
-          apply nth_error_None in E0. pose proof (nth_error_lt _ _ _ Hp1). lia. }
+        - exfalso. apply nth_error_None in E0. pose proof (nth_error_lt _ _ _ Hp1). lia. }
       intros k p Hk. destruct (Hl1 k p Hk) as (p1 & Hk1 & Hn1 & Ho1 & Hi1).
       destruct (Hl2 k p1 Hk1) as (p2 & Hk2 & Hn2 & Ho2 & Hi2).
       exists p2. split; [exact Hk2|]. split; [congruence|].
